@@ -10,7 +10,7 @@ package v2
 // panic was repaired, see known_findings.txt); a null entry yields an alert without labels, which validation rejects.
 //@ func OpenAPIAlertsToAlerts
 //@   props C13
-//@   requires tracer != nil && ctx != nil
+//@   requires tracer != nil
 //@   after call Tracer).Start assume res0 != nil && res1 != nil
 //@   ensures [one-alert-per-entry] fresh(result) && len(result) == len(apiAlerts) && (forall i int :: 0 <= i && i < len(result) ==> result[i] != nil && fresh(result[i]) && !result[i].Timeout)
 //@   ensures [distinct] forall i int, j int :: 0 <= i && i < j && j < len(result) ==> result[i] != result[j]
@@ -60,6 +60,8 @@ package v2
 //@ func (*API).postAlertsHandler
 //@   props C13
 //@   nosafe
+//@   assumes tracer != nil
+//@   after call Tracer).Start assume res0 != nil && res1 != nil
 //@   after call Alert).Validate assume (res0 == nil) == validAlert(ret("OpenAPIAlertsToAlerts")[rangeindex2 + 1])
 //@   at call removeEmptyLabels assert [empty-labels-of-each-alert] arg0 == ret("OpenAPIAlertsToAlerts")[rangeindex2 + 1].Labels
 //@   at call Alert).Validate assert [empty-labels-removed-before-validation] count("removeEmptyLabels") == count("Alert).Validate") + 1
